@@ -64,13 +64,13 @@ func (v *arrayValidator) feed(jsonLexeme lexeme.LexEvent) ([]validator, bool) {
 		}
 
 	case lexeme.ArrayEnd:
-		if arrayNode, ok := v.node_.(*schema.ArrayNode); ok {
-			arrayNode.ConstraintMap().EachSafe(func(_ constraint.Type, av constraint.Constraint) {
-				if arrayValidator, ok := av.(constraint.ArrayValidator); ok {
-					arrayValidator.ValidateTheArray(v.itemsCounter)
-				}
-			})
-		}
+		// The rules on the number of items belong to an array node as well as to a
+		// mixed node (the root of a rule-set of the "or" rule which describes arrays).
+		v.node_.ConstraintMap().EachSafe(func(_ constraint.Type, av constraint.Constraint) {
+			if arrayValidator, ok := av.(constraint.ArrayValidator); ok {
+				arrayValidator.ValidateTheArray(v.itemsCounter)
+			}
+		})
 		return nil, true
 	}
 
